@@ -275,6 +275,8 @@ class Check:
         self.known = {}
         self.findings = load_findings().get(pid, {})
         self._nontrivial = set()
+        for f in glob.glob(os.path.join(VERIF, "replays", pid + "-*.json")):
+            os.unlink(f)
 
     @property
     def quick(self):
